@@ -146,6 +146,78 @@ theorem restore_commitments (n0 : Node) (h0 : Fresh n0) (evs : List Ev) (s' : St
     · show s.disk.lc.cm.height = _
       rw [hD.lc]
 
+/-! ## the relation `≈` between the signed projection and the restored state -/
+
+/-- `hEquiv t` is an equivalence relation on commit heights. -/
+theorem hEquiv_equivalence (t : Nat) :
+    (∀ a, hEquiv t a a = true) ∧
+    (∀ a b, hEquiv t a b = true → hEquiv t b a = true) ∧
+    (∀ a b c, hEquiv t a b = true → hEquiv t b c = true → hEquiv t a c = true) := by
+  refine ⟨?_, ?_, ?_⟩
+  · intro a; rw [hEquiv_iff]; exact ⟨Iff.rfl, Iff.rfl, by omega⟩
+  · intro a b h; rw [hEquiv_iff] at h ⊢; obtain ⟨h1, h2, h3⟩ := h
+    refine ⟨h1.symm, h2.symm, ?_⟩
+    rcases h3 with h3 | h3
+    · exact Or.inl (h2.mp h3)
+    · exact Or.inr h3.symm
+  · intro a b c h g; rw [hEquiv_iff] at h g ⊢
+    obtain ⟨h1, h2, h3⟩ := h; obtain ⟨g1, g2, g3⟩ := g
+    refine ⟨h1.trans g1, h2.trans g2, ?_⟩
+    rcases h3 with h3 | h3
+    · exact Or.inl h3
+    · rcases g3 with g3 | g3
+      · exact Or.inl (h2.mpr g3)
+      · exact Or.inr (h3.trans g3)
+
+/-- **heights related by `≈` are indistinguishable**: for a chain whose tail is at height `t`, two
+    `hEquiv t`-related commit heights give the same answer in every comparison the state machine
+    makes, now and after any further advance of the tail: the "not yet committed" test `= 0`,
+    the compaction / forwarding test `≤ tail'` for every `tail' ≥ t`, and the "committed at exactly
+    this new height" test `= h` for every `h > t` (commit-diff construction, forwarding
+    package); the relation itself survives every advance of the tail. -/
+theorem hEquiv_indistinguishable (t a b : Nat) (h : hEquiv t a b = true) :
+    (a = 0 ↔ b = 0) ∧
+    (∀ t', t ≤ t' → (a ≤ t' ↔ b ≤ t')) ∧
+    (∀ x, t < x → (a = x ↔ b = x)) ∧
+    (∀ t', t ≤ t' → hEquiv t' a b = true) := by
+  rw [hEquiv_iff] at h
+  obtain ⟨h1, h2, h3⟩ := h
+  refine ⟨h1, ?_, ?_, ?_⟩
+  · intro t' ht
+    rcases h3 with h3 | h3
+    · have := h2.mp h3; constructor <;> intro <;> omega
+    · rw [h3]
+  · intro x hx
+    rcases h3 with h3 | h3
+    · have := h2.mp h3; constructor <;> intro <;> omega
+    · rw [h3]
+  · intro t' ht
+    rw [hEquiv_iff]
+    refine ⟨h1, ?_, ?_⟩
+    · rcases h3 with h3 | h3
+      · have := h2.mp h3; constructor <;> intro <;> omega
+      · rw [h3]
+    · rcases h3 with h3 | h3
+      · left; omega
+      · right; exact h3
+
+/-- **restore_is_signed_projection_partial**.  At every crash point of every run the restarted
+    node agrees with the signed projection of the pre-crash node (`signedProj`) on the
+    configuration and on both commitment chains (heights, balances, fee, indices, HTLC sets of
+    the current and the pending commitments; received-but-unrevoked local commitments dropped).
+    NOT proved: the update-log part of `nodeEquiv (signedProj s.mem) s'.mem` (same signed updates
+    with `hEquiv`-related heights, same counters, same modified marks).  The driver evaluates
+    `nodeEquiv (signedProj ·) ·` on the implementation's own pre-crash / restored dumps at every
+    probe and every real restart (monitor clauses restore-*). -/
+theorem restore_is_signed_projection_partial (n0 : Node) (h0 : Fresh n0) (evs : List Ev) (s' : St)
+    (hc : ((St.init n0).run evs).crash = .ok s') :
+    let s := (St.init n0).run evs
+    (signedProj s.mem).cfg = s'.mem.cfg ∧ (signedProj s.mem).chainL = s'.mem.chainL ∧
+    (signedProj s.mem).chainR = s'.mem.chainR := by
+  intro s
+  obtain ⟨h1, h2, h3, _, _⟩ := restore_commitments n0 h0 evs s' hc
+  exact ⟨h3.symm, h1.symm, h2.symm⟩
+
 /-- the restored memory is a function of the durable state alone: crashing twice in a row gives
     the same memory as crashing once. -/
 theorem restore_only_reads_disk (s s1 s2 : St) (h1 : s.crash = .ok s1) (h2 : s1.crash = .ok s2) :
